@@ -1,4 +1,5 @@
 import RemocModel.Table.ConnReq
+import RemocModel.Table.ConnOpen
 set_option linter.unusedSimpArgs false
 set_option linter.unusedVariables false
 /-
@@ -159,6 +160,93 @@ theorem inv1_run (s : St) (ls : List (Who × Lab)) (hi : Inv1 s) : Inv1 (run s l
     simp only [run]
     split
     · rename_i s' hs; exact ih s' (inv1_step s s' x l hi hs)
+    · exact ih s hi
+
+/-! ### port layer -/
+
+theorem reqInv_resp_nodup {c v : Side} {wcv wvc : List Msg} (h : ReqInv c v wcv wvc) : (respPorts wvc).Nodup := by
+  have := h.nodup; simp only [reqWhere] at this
+  exact (List.nodup_append.mp this).2.1
+
+theorem reqInv_resp_connecting {c v : Side} {wcv wvc : List Msg} (h : ReqInv c v wcv wvc) :
+    ∀ cp ∈ respPorts wvc, lookup c.ep.ports cp = some .connecting := by
+  intro cp hcp; exact (h.conn cp).mpr (by simp [reqWhere, hcp])
+
+theorem reqInv_out_connecting {c v : Side} {wcv wvc : List Msg} (h : ReqInv c v wcv wvc) :
+    ∀ rp ∈ v.ep.outstanding, lookup c.ep.ports rp = some .connecting ∧ rp ∉ respPorts wvc := by
+  intro rp hrp
+  refine ⟨(h.conn rp).mpr (by simp [reqWhere, hrp]), ?_⟩
+  have := h.nodup; simp only [reqWhere] at this
+  intro hin
+  exact (List.nodup_append.mp this).2.2 rp (List.mem_append.mpr (Or.inr hrp)) rp hin rfl
+
+/-- one side steps: the four port-layer invariants it takes part in are preserved -/
+theorem port_step_side (x y x' : Side) (wxy wyx inW' out : List Msg) (l : Lab)
+    (hs : stepSide x wyx l = some (x', inW', out))
+    (P1 : PortInv x.ep y.ep wxy) (P2 : PortInv y.ep x.ep wyx)
+    (O1 : OpenInv y.ep wxy wyx) (O2 : OpenInv x.ep wyx wxy)
+    (rc : ReqInv x y wxy wyx) (rv : ReqInv y x wyx wxy) (hw : ∀ m ∈ wyx, isCtl m = true) :
+    PortInv x'.ep y.ep (wxy ++ out) ∧ PortInv y.ep x'.ep inW' ∧
+    OpenInv y.ep (wxy ++ out) inW' ∧ OpenInv x'.ep inW' (wxy ++ out) := by
+  rcases stepSide_kinds x x' wyx inW' out l hs with ⟨hp, _, rfl, rfl⟩ | ⟨ev, m, he, rfl, rfl⟩ | ⟨m, e', em, rfl, rfl, he, hp⟩
+  · simp only [List.append_nil]
+    exact ⟨P1.congr_ports hp rfl, P2.congr_ports rfl hp, O1, O2.congr_ports hp⟩
+  · refine ⟨?_, ?_, ?_, ?_⟩
+    · exact port_tx_evt x.ep x'.ep y.ep wxy ev m he P1 (reqInv_resp_nodup rv) (reqInv_out_connecting rv)
+    · exact port_rx_evt y.ep x.ep x'.ep inW' ev m he P2 (reqInv_resp_connecting rc)
+        (fun rp hrp => (reqInv_out_connecting rv rp hrp).1)
+    · exact open_x_evt x.ep x'.ep y.ep wxy inW' ev m he P1 O1 (reqInv_resp_connecting rc)
+    · exact open_y_evt y.ep x.ep x'.ep inW' wxy ev m he P2 O2
+  · simp only [List.append_nil]
+    have hctl := hw m (by simp)
+    have hv : x.rxView.ports = x.ep.ports := rfl
+    refine ⟨?_, ?_, open_x_rx y.ep wxy inW' m O1, ?_⟩
+    · refine (port_tx_rx x.rxView e' y.ep wxy m em he (P1.congr_ports hv rfl) ?_).congr_ports hp rfl
+      intro cp sp hm; exact O1 cp sp (by rw [hm]; simp)
+    · exact (port_rx_rx y.ep x.rxView e' inW' m em he (P2.congr_ports rfl hv) (reqInv_resp_nodup rc) hctl).congr_ports rfl hp
+    · exact (open_y_rx x.rxView e' inW' wxy m em he hctl (O2.congr_ports hv)).congr_ports hp
+
+/-- requests + ports: the wire-related part of the global invariant -/
+structure Inv2 (s : St) : Prop where
+  r : Inv1 s
+  pab : PortInv s.a.ep s.b.ep s.toB
+  pba : PortInv s.b.ep s.a.ep s.toA
+  /-- answers in flight towards `a` (sent by `b`) have a fresh partner at `b` -/
+  ob : OpenInv s.b.ep s.toB s.toA
+  oa : OpenInv s.a.ep s.toA s.toB
+
+theorem portInv_init (x y : Ep) (hx : x.ports = []) (hy : y.ports = []) : PortInv x y [] := by
+  refine ⟨fun q _ => by simp [cntSF, cntRC, cntRF], fun q => by simp [cntSF, cntRC, cntRF],
+          fun q d hd => by rw [hy] at hd; simp [lookup] at hd, rfl, fun p c hc => by rw [hx] at hc; simp [lookup] at hc⟩
+
+theorem inv2_init (mpA cqA mpB cqB : Nat) : Inv2 (init mpA cqA mpB cqB) :=
+  ⟨inv1_init mpA cqA mpB cqB, portInv_init _ _ rfl rfl, portInv_init _ _ rfl rfl,
+   fun cp sp h => by simp [init] at h, fun cp sp h => by simp [init] at h⟩
+
+theorem inv2_step (s s' : St) (x : Who) (l : Lab) (hi : Inv2 s) (h : step s x l = some s') : Inv2 s' := by
+  have h1 := inv1_step s s' x l hi.r h
+  cases x with
+  | A =>
+    simp only [step, Option.map_eq_some_iff] at h
+    obtain ⟨⟨a', inW, out⟩, hs, rfl⟩ := h
+    obtain ⟨p1, p2, o1, o2⟩ := port_step_side s.a s.b a' s.toB s.toA inW out l hs hi.pab hi.pba hi.ob hi.oa
+      hi.r.ab hi.r.ba hi.r.wa
+    exact ⟨h1, p1, p2, o1, o2⟩
+  | B =>
+    simp only [step, Option.map_eq_some_iff] at h
+    obtain ⟨⟨b', inW, out⟩, hs, rfl⟩ := h
+    obtain ⟨p1, p2, o1, o2⟩ := port_step_side s.b s.a b' s.toA s.toB inW out l hs hi.pba hi.pab hi.oa hi.ob
+      hi.r.ba hi.r.ab hi.r.wb
+    exact ⟨h1, p2, p1, o2, o1⟩
+
+theorem inv2_run (s : St) (ls : List (Who × Lab)) (hi : Inv2 s) : Inv2 (run s ls) := by
+  induction ls generalizing s with
+  | nil => exact hi
+  | cons xl ls ih =>
+    obtain ⟨x, l⟩ := xl
+    simp only [run]
+    split
+    · rename_i s' hs; exact ih s' (inv2_step s s' x l hi hs)
     · exact ih s hi
 
 end Remoc.Table.Sys
